@@ -473,7 +473,7 @@ func RunCoh(c *core.Ctx) {
 			checkTypeBuilder(c, g, base, len(enums), len(msgs))
 			checkInitChain(c, g, v, base, fdesc)
 			checkExtensions(c, g, base, fdesc)
-			checkRawDescGZIP(c, g, base)
+			checkRawDescGZIP(c, g, base, len(enums)+len(msgs) > 0)
 			// legacy Descriptor() / EnumDescriptor(): the compressed descriptor of this file plus the index path of the
 			// declaration inside it (top-level index first)
 			pathOf := func(d protoreflect.Descriptor) []int64 {
@@ -1403,11 +1403,16 @@ func pkgVarInit(g *model.GenPkg, name string) ast.Expr {
 // checkRawDescGZIP (COH.legacy): the bytes the legacy Descriptor()/EnumDescriptor() methods hand out are the
 // gzip-compressed raw descriptor: <base>_rawDescData starts as <base>_rawDesc (the init function later sets
 // <base>_rawDesc to nil) and <base>_rawDescGZIP compresses and returns <base>_rawDescData, once.
-func checkRawDescGZIP(c *core.Ctx, g *model.GenPkg, base string) {
+func checkRawDescGZIP(c *core.Ctx, g *model.GenPkg, base string, needed bool) {
 	src := g.Source
 	con := g.Name + " " + base + "_rawDescGZIP"
 	fd := g.Funcs[base+"_rawDescGZIP"]
 	if fd == nil {
+		if !needed {
+			// no enum or message of the file hands the legacy descriptor out: protoc-gen-go emits no such function
+			c.Ok("COH.legacy", con, "the file declares neither enums nor messages: no legacy descriptor accessor is needed", "", src)
+			return
+		}
 		c.Fail("COH.legacy", con, "function not found", "", src)
 		return
 	}
